@@ -229,15 +229,22 @@ def gen_case(rng, directed=None):
 def grid_case(k):
     """the Lean `example` of Properties/Resolved.lean on the real code: theta = 1", table (200, 400, 800) AU with fluxes
     (1, 100, 10000) mJy, distance ranges 0.2-0.2, 0.2-0.4, 0.2-0.8 kpc (1, 2, 3 trial distances)"""
-    dmax = [0.2, 0.4, 0.8][k]
+    dmax = [0.2, 0.4, 0.8, 0.8][k]
     src = dict(flags=[1, 1], flux=[25., 30.], err=[2.5, 3.])
+    if k == 3:
+        # "as coded vs as documented": a uniformly bright model (flux ~ aperture^2) whose own half-peak-brightness radius
+        # is 800 AU; the code marks only the first of the apertures 200, 400, 800 AU
+        return dict(kind='grid_dependence', wavs=[1., 10.], tab_w=[0.02, 0.55, 3., 30., 9000.], tab_chi=[3e4, 4e3, 1.5e3, 4e2, 10.],
+                    thetas=[1., 1.], aps=[200., 400., 800.], flux=[[[100., 400., 1600.]], [[2., 150., 9000.]]],
+                    dmin=0.2, dmax=0.8, step=0.35, av=[-20., 40.], sources=[src], akind='inside', special=None,
+                    unused=False, flag9=False, expect_mask_band0=[True, False, False])
     return dict(kind='grid_dependence', wavs=[1., 10.], tab_w=[0.02, 0.55, 3., 30., 9000.], tab_chi=[3e4, 4e3, 1.5e3, 4e2, 10.],
                 thetas=[1., 1.], aps=[200., 400., 800.], flux=[[[1., 100., 10000.]], [[2., 150., 9000.]]],
                 dmin=0.2, dmax=dmax, step=0.35, av=[-20., 40.], sources=[src], akind='inside', special=None,
                 unused=False, flag9=False, expect_mask_band0=[[False], [True, False], [True, True, False]][k])
 
 
-DIRECTED = [dict(grid=0), dict(grid=1), dict(grid=2),
+DIRECTED = [dict(grid=0), dict(grid=1), dict(grid=2), dict(grid=3),
             dict(npts=1), dict(npts=1, akind='beyond'),
             dict(akind='all_beyond', npts=4), dict(akind='all_beyond', npts=2),
             dict(unused=True, npts=6, akind='inside', nb=3), dict(unused=True, npts=8, akind='inside', nb=4),
